@@ -157,7 +157,18 @@ fn synth_raw(
         Expression::Term(factor) => synth_factor(ctx, factor, current),
         Expression::Unary(op, inner, _comptime) => synth_unary(ctx, *op, inner, current, ctx_width),
         Expression::Binary(x, op, y, comptime) => {
-            let signed = comptime.expr_context.signed;
+            // The operands of a relational operator are sized and signed among
+            // themselves (IEEE 1800-2017 11.6.1, 11.8.1): the comparison is
+            // signed iff both operands are, whatever expression it sits in.
+            // The node's own context is the enclosing expression's.
+            let signed = if matches!(
+                op,
+                Op::Less | Op::LessEq | Op::Greater | Op::GreaterEq
+            ) {
+                x.comptime().expr_context.signed && y.comptime().expr_context.signed
+            } else {
+                comptime.expr_context.signed
+            };
             synth_binary(ctx, x, *op, y, current, ctx_width, signed)
         }
         Expression::Ternary(cond, a, b, _comptime) => {
